@@ -49,13 +49,15 @@ def main():
     nsmall = 400 if quick else 3000
     # ---- N <-> N^2 (and N^3 through the generic recursion / the n-d Rosenberg-Strong) -----------------------------
     for name, cls in classes.items():
-        for dim in (2, 3):
-            if name == "cantor" and dim == 3:
+        for dim in (2, 3, 4):
+            if name == "cantor" and dim >= 3:
                 continue    # not offered (projection raises NotImplementedError)
             kind = {("rs", 3): "rs3", ("szudzik", 3): "sz3"}.get((name, dim), name if dim == 2 else f"{name}{dim}")
             n = nsmall if name != "hyperbolic" else (150 if quick else 600)
             if name == "pepis" and dim == 3:
                 n = min(n, 300)
+            if dim == 4:      # the generic recursion one level deeper (round trips only: no TLA+ definition in 4 dimensions)
+                n = 60 if name == "pepis" else (150 if quick else 1000)
             obj = cls()
             ev, ps, ok = [], [], 1
             for z in range(n):
@@ -68,7 +70,7 @@ def main():
                     ev.append({"e": "RT", "z": big(z), "p": [], "zz": [0], "ok": 0})
                     ok = 0
             ev.append({"e": "Block", "ps": ps, "ok": ok})
-            m = 7 if dim == 2 else 4
+            m = 7 if dim == 2 else (4 if dim == 3 else 3)
             for x in itertools.product(range(m), repeat=dim):
                 if name == "pepis" and sum(x) > 9:
                     continue
